@@ -19,7 +19,7 @@ import (
 )
 
 // zzTpl: templates A, B, C differ in the pod spec (image); Bl and Ba equal B except for a
-// label / an annotation of the template's own metadata.
+// label / an annotation / the name of the template's own metadata.
 func zzTpl(id string) corev1.PodTemplateSpec {
 	t := corev1.PodTemplateSpec{
 		ObjectMeta: metav1.ObjectMeta{Labels: map[string]string{"app": "agent"}},
@@ -30,19 +30,21 @@ func zzTpl(id string) corev1.PodTemplateSpec {
 		t.Labels["tier"] = "canary"
 	case "Ba":
 		t.Annotations = map[string]string{"checksum/config": "abc"}
+	case "Bn":
+		t.Name = "agent" // as copied from a Pod manifest; defaulting of the ExtendedDaemonSet clears it later
 	}
 	return t
 }
 
 func zzImageOf(id string) string {
-	if id == "Bl" || id == "Ba" {
+	if id == "Bl" || id == "Ba" || id == "Bn" {
 		return "B"
 	}
 	return id
 }
 
 func zzPick(label string) string {
-	switch nondet.String(label, "A", "B", "C", "Bl", "Ba") {
+	switch nondet.String(label, "A", "B", "C", "Bl", "Ba", "Bn") {
 	case "A":
 		return "A"
 	case "B":
@@ -51,6 +53,8 @@ func zzPick(label string) string {
 		return "Bl"
 	case "Ba":
 		return "Ba"
+	case "Bn":
+		return "Bn"
 	}
 	return "C"
 }
